@@ -92,7 +92,7 @@ def choose_array_form(rng, p_plain, pool):
 def choose_scalar_form(rng, x, p_plain=0.5):
     if rng.random() < p_plain:
         return "SPyFloat"
-    pool = ["SNpFloat64", "S0d"] + (["SNpFloat32"] if np.isfinite(np.float32(x)) and (x == 0 or np.float32(x) != 0) else [])
+    pool = ["SNpFloat64", "S0d"] + (["SNpFloat32"] if (x == 0 or 1e-30 < abs(x) < 1e30) else [])
     if float(x) == int(x) and abs(x) < 2 ** 31:
         pool += ["SPyInt", "SPyInt", "SNpInt64"]
     return rng.choice(pool)
@@ -122,6 +122,8 @@ def assign_forms(rng, case, preserve=False):
             al = np.abs(case["alpha"] * a)
             if not np.all((al == 0) | ((al > 1e-30) & (al < 1e30))):
                 f = "F64"            # alpha * L is formed in float32 for a float32 L: outside its range it under/overflows
+        if f == "F32" and a.size and not np.all((a == 0) | ((np.abs(a) > 1e-30) & (np.abs(a) < 1e30))):
+            f = "F64"                # outside the comfortable float32 range single-precision arithmetic under/overflows
         if a.size == 0 and f == "FList":
             f = "F64"                                # a nested list cannot express an empty 2-D shape
         newv = cast_values(a, f)
